@@ -414,10 +414,18 @@ fn case_buffered(cx: &mut Cx, cs: u64) {
     cx.rep.obs("metrics_accepted", ck.accepted as u64);
     let capc = if cap <= 8 { cap } else if cap < 512 { 9 } else if cap == 512 { 11 } else { 12 };
     let cs_: Vec<char> = sig.chars().collect();
+    let mut wins: Vec<String> = Vec::new();
     for w in cs_.windows(3) {
         if w.iter().any(|c| !matches!(c, 'b' | 'f' | 'd')) {
-            cx.rep.distinct(&format!("{}|{}|{}{}{}", label, capc, w[0], w[1], w[2]));
+            let s3 = format!("{}|{}|{}{}{}", label, capc, w[0], w[1], w[2]);
+            cx.rep.fine("outcome_windows_of_3_calls", &s3);
+            wins.push(s3);
         }
+    }
+    if wins.is_empty() {
+        cx.rep.trivial();
+    } else {
+        cx.rep.distinct_set(&format!("{}|{}", label, capc), &mut wins);
     }
     if cx.rep.want_sample() {
         cx.rep.sample(|| jobj! {"embodiment" => label, "capacity" => cap, "outcomes" => sig.as_str(), "history" => hist(&steps[..steps.len().min(6)])});
